@@ -199,7 +199,7 @@ REWRITE = {
              "COMPOSED: as_numpy_common, as_numpy_iterator, as_numpy_iterator_concurrent and as_numpy_iterator_async (repeat=False) are regenerated from dataset_iteration.py as compositions of these combinators "
              "(GenPipeline.v: buffer sizes, guards, process_record placement, batches, process_and_list) and proved to yield a permutation of `every example of every selected shard, processed once` for every decoder, shuffle size, "
              "thread count, random sequence and pool completion order; under a fixed LCG seed the generated compositions equal the real interfaces element by element. "
-             "And for the depth-first shard list over nested lists (c02_iteration_yields_exactly_what_is_stored): after every history of the session model, unshuffled iteration of a split is a permutation of the contents of all shard files stored below it. "
+             "And for the depth-first shard list over nested lists (c02_iteration_yields_exactly_what_is_stored): after every history of the session model, unshuffled iteration of a split is a permutation of the contents of all shard files stored below it, i.e. (c02_every_history_delivers_exactly_what_was_written) of exactly the accepted writes of all sessions to that split. "
              "PARTIAL: as_tfdataset and the Rust reader are not theorems; they are checked by whole-pipeline runs:")],
     "C06": [("PARTIAL: that the library's sessions satisfy the discipline is not proved for all sessions; it is checked per run:",
              "SESSIONS (c06_every_history_publishes_in_order, c06_every_cut_is_closed): in the session model of C04 (fillers into any directory, multi-writer calls, the recursive merge; kernels regenerated from the source) "
